@@ -1,11 +1,20 @@
 ----------------------------- MODULE LevelTables -----------------------------
 (* C16 -- the encoder respects any level table it claims to satisfy.                          *)
 (*                                                                                            *)
-(* A TLC choice machine over SYNTHETIC level definitions: a single-column allowed-value table *)
-(* (every key `any`, except one or two restricted keys) together with a data-unit ordering    *)
-(* pattern, for each of a few tiny codec configurations.  A completed choice (stage = Done)   *)
-(* is handed to the driver, which installs the table as level 1 of the real library           *)
-(* (in-process, restored afterwards), runs the real encoder and - if it produced a sequence   *)
+(* A TLC choice machine over level definitions, in three classes:                             *)
+(*  "full"  SYNTHETIC: a single-column allowed-value table (every key `any`, except one or    *)
+(*          two restricted keys) together with a data-unit ordering pattern, for each of a    *)
+(*          few tiny codec configurations;                                                    *)
+(*  "geom"  SYNTHETIC: a single-column table pinning one DERIVED key (the values the encoder  *)
+(*          computes from the codec features to select columns) for geometry configurations   *)
+(*          x picture coding mode x source sampling, agreeing and disagreeing, whose frame    *)
+(*          and field DC-band heights divide differently by slices_y;                         *)
+(*  "real"  the REAL multi-column table: one feature set per level x every base video format  *)
+(*          x source sampling x coding mode x a perturbation, whether or not the level admits *)
+(*          the format (mostly it does not: the encoder must then refuse).                    *)
+(* A completed choice (stage = Done) is handed to the driver, which installs the synthetic    *)
+(* table as level 1 of the real library (in-process, restored afterwards; nothing is          *)
+(* installed for class "real"), runs the real encoder and - if it produced a sequence         *)
 (* rather than an UnsatisfiableCodecFeaturesError - the real validator under the same table.  *)
 (*                                                                                            *)
 (* Outcome space {unsat, produced}.  The property:  produced => validator accepts.            *)
